@@ -481,21 +481,20 @@ type c12File struct {
 }
 
 type c12World struct {
-	c               *kit.Case
-	unit            string
-	v2              bool
-	universe        uint64
-	parent          []int
-	depth           []int
-	dirs            []string
-	kids            [][]int
-	maxDepth        int
-	res             []int
-	files           [][]*c12File // [node][index into res]
-	calls           int
-	crash           int
-	trace           [][]uint64 // state after each updater call of the current rewrite (flattened node-major)
-	continueOnKnown bool
+	c        *kit.Case
+	unit     string
+	v2       bool
+	universe uint64
+	parent   []int
+	depth    []int
+	dirs     []string
+	kids     [][]int
+	maxDepth int
+	res      []int
+	files    [][]*c12File // [node][index into res]
+	calls    int
+	crash    int
+	trace    [][]uint64 // state after each updater call of the current rewrite (flattened node-major)
 }
 
 func (w *c12World) all() []*c12File {
@@ -718,7 +717,7 @@ func c12BuildTree(r *kit.Rand, w *c12World, rootDir string) {
 	}
 }
 
-// c12Descendants returns the nodes in an order in which children come after parents.
+// topo returns the nodes in an order in which children come after parents.
 func (w *c12World) topo() []int {
 	ids := make([]int, len(w.dirs))
 	for i := range ids {
